@@ -17,7 +17,7 @@ from harness.core import import_lentil
 from harness import optics as ox
 
 LEVEL = 'model_checking'
-RINGS = {16: [4, 8, 16], 24: [4, 6, 8, 12], 32: [4, 8, 16], 40: [5, 8, 10], 48: [6, 8, 12, 16]}
+RINGS = {16: [4], 32: [4, 8], 48: [4, 6, 12], 64: [4, 8, 16], 96: [6, 8, 12, 24]}     # 4*q | N: quarter-sample displacements
 
 
 def rgs_partition(rng, npix, k):
@@ -69,7 +69,17 @@ def gen_scenario(rng, tier, sid):
     du = (Fr(1, qr) * lam * z * os_ / dx[0], Fr(1, qc) * lam * z * os_ / dx[1])
     M, K = rng.randint(1, 4), rng.randint(1, 4)
     pM, pK = (M, K) if rng.random() < 0.6 else (rng.randint(1, M), rng.randint(1, K))
-    prop = ox.dft(du, (M, K), (pM, pK), os_)
+    extra = rng.choice(('none', 'none', 'wftilt', 'tiltplane', 'mask'))
+    omask = None
+    if extra == 'mask':
+        omask = np.zeros((M * os_, K * os_), dtype=int)
+        omask[rng.randrange(M * os_), rng.randrange(K * os_)] = 1
+        omask[rng.randrange(M * os_), rng.randrange(K * os_)] = 1
+    prop = ox.dft(du, (M, K), (pM, pK), os_, omask)
+    # quarter-sample displacement (never an exact non-zero integer): theta = s * du / (z * os)
+    tq = (Fr(rng.choice((-5, -3, -1, 1, 2, 3, 6)), 4) if False else Fr(rng.choice((-5, -3, -1, 1, 3, 7)), 4),
+          Fr(rng.choice((-7, -3, -1, 1, 3, 5)), 4))
+    tang = (tq[0] * du[0] / (z * os_), -tq[1] * du[1] / (z * os_))
     planes = [(amp, opd, segs)]
     if rng.random() < 0.35:
         a2, o2, s2, single2 = segmented_plane(rng, N, m, n, rng.choice((1, 2)), False)
@@ -87,9 +97,11 @@ def gen_scenario(rng, tier, sid):
             else:
                 st = ox.plane('Pupil', amp=a * flat, opd=o, mask=np.ones_like(flat), **kw)
             steps.append(st)
+        if extra == 'tiltplane':
+            steps.append(ox.plane('Tilt', tx=tang[0], ty=tang[1]))
         steps.append(prop)
-        variants[var] = dict(sid=sid, N=N, var=var, nseg=len(segs), single=bool(single), chain=len(planes),
-                             overlapping_bboxes=overlapping(segs), wf=ox.wf(lam), steps=steps,
+        variants[var] = dict(sid=sid, N=N, var=var, nseg=len(segs), single=bool(single), chain=len(planes), extra=extra,
+                             overlapping_bboxes=overlapping(segs), wf=ox.wf(lam, tilt=tang if extra == 'wftilt' else None), steps=steps,
                              thm='segments' if (var == '3d' and N <= 32 and rng.random() < 0.3) else 'none')
     return list(variants.values())
 
@@ -131,6 +143,10 @@ def run(ctx):
     nsc = 350 if ctx.tier == 'quick' else 3500
     for sid in range(nsc):
         cases += gen_scenario(rng, ctx.tier, sid)
+    for _ in range(40 if ctx.tier == 'quick' else 300):
+        b = ox.bridging_case(rng)
+        b.update(sid=nsc + len(cases), var='3d', nseg=3, single=False, chain=1, overlapping_bboxes=False)
+        cases.append(b)
     for i, c in enumerate(cases):
         c['id'] = i
     spec, results = ox.eval_spec(cases)
